@@ -83,7 +83,7 @@ var Projections = map[string]*Projection{
 		Cb: map[string]fieldSet{"*": fs("q", "def")}},
 	// which definition ran with which parameters; describe replies
 	"C07": {SkipPreamble: true, Recv: map[string]fieldSet{"*": kinds, "T": fs("n", "fmts", "names"), "t": fs("n")},
-		Cb: map[string]fieldSet{"*": fs("q", "def", "si", "params")}},
+		Cb: map[string]fieldSet{"*": fs("q", "def", "si", "params", "key", "hit")}},
 	"C08": {SkipPreamble: true, Recv: map[string]fieldSet{"*": kinds, "T": fs("n", "fmts", "oids"), "t": fs("n", "oids"), "D": fs("n", "cells")},
 		Cb: map[string]fieldSet{"*": fs("q", "def", "si", "params")}},
 	"C01": {Recv: map[string]fieldSet{"*": kinds, "R": fs("code"), "E": fs("cls")},
